@@ -95,3 +95,9 @@ CHECKS["C14"] = dict(
     text="Both code paths (SVD for n>p, symmetric EVD otherwise) and exact rank deficiency are reached by small lattice matrices; the captured variance of the first k components is compared with the k largest eigenvalues of the sample covariance computed by an independent cyclic Jacobi method, which is the optimality statement itself.",
     note="Tolerances 1e-9*trace with >=10x measured headroom; the covariance divisor convention in correlation mode is not pinned by the statement.",
 )
+CHECKS["C09"] = dict(
+    engine="E1",
+    technique="exhaustive enumeration of logistic-regression training sets (p=1: sorted multisets of 6 (x,label) pairs over a 4-letter alphabet, 2 and 3 classes, all orders for n=4; p=2 on a 2x2 lattice; feature maps a*x+b; alpha in {0,1e-2,1,10}; ugly label bijections; structured sets to n=100, p=6, 4 classes) with a harness-side gradient/objective oracle (stable log-sum-exp), and of SPD quadratics (diagonal / rotated / tridiagonal spectra, cond<=1e4, dimension 1..12, all lattice starts for d<=3) driven through the re-exported L-BFGS with recording closures",
+    text="Stationarity is checked against the gradient recomputed independently at the returned parameters relative to its size at the all-zero start; monotonicity against the starting objective; predictions against the arg-max of the harness's own linear scores. For the minimiser, the accepted iterates are exactly the points handed to the gradient closure, so the harness records them and checks the objective never increases and the gradient drops by >=1e6.",
+    note="Stationarity threshold 1e-3 relative (calibrated worst case 3.2e-5 on the plain lattice); quadratics normalised to smallest eigenvalue >= 1 (g_atol is absolute).",
+)
